@@ -47,6 +47,10 @@ HOURLY_PROFILES = {
     "adaptive": ({"elasticnet": {"adaptive_weights": True, "adaptive_weight_max_iter": 5, "adaptive_weight_tol": 1e-4}}, False),
     "seeded": ({"seed": 7, "temperature_bin": {"bin_width": 9.5, "edge_bin_rate": 1.5}}, True),
     "float-width": ({"temperature_bin": {"bin_width": 12.0}}, False),
+    # settings.train_features in another order than the sorted feature order the model fits and stores its scalers in
+    "reversed-solar": ({"train_features": ["ghi", "temperature"]}, True),
+    "solar-inserted": ("HourlySolarSettings(train_features=['temperature'])", True),     # the validator inserts ghi at position 0
+    "supplemental": ({"train_features": ["feature_col", "ghi"], "scaling_method": "robustscaler"}, "feature_col"),
 }
 
 
@@ -172,6 +176,12 @@ def job_hourly(job):
     rf = fitlib.hourly_frame(rng, tz=tz, start="2023-01-15", ndays=rng.choice([30, 75]), ghi=True)
     if not solar:
         hf, rf = hf[["observed", "temperature"]], rf[["observed", "temperature"]]
+    if solar == "feature_col":
+        for fr in (hf, rf):
+            fr["feature_col"] = np.sin(np.arange(len(fr)) / 17.0) + 0.1 * (fr.index.hour.values % 5)
+    if isinstance(st, str):
+        from opendsm.eemeter.models.hourly import settings as hs
+        st = hs.HourlySolarSettings(train_features=["temperature"])
     with quiet():
         m = HourlyModel(settings=copy.deepcopy(st)).fit(fitlib.hourly_baseline(hf.copy()), ignore_disqualification=True)
     state = hourly_state_of(m)
@@ -180,7 +190,8 @@ def job_hourly(job):
             ("baseline", lambda: fitlib.hourly_baseline(hf.copy()))]
     obs, js, m2, js2 = c01lib.roundtrip_obs(HourlyModel, m, sets, {"ignore_disqualification": True}, snapshot=hourly_state_of)
     state2 = obs.pop("_state2", None)
-    return {"state": state, "state2": state2, "js": js, "js2": js2, "obs": obs, "solar": solar, "n_coef": sum(len(r) for r in state["coef"])}
+    return {"state": state, "state2": state2, "js": js, "js2": js2, "obs": obs, "solar": bool(solar), "n_coef": sum(len(r) for r in state["coef"]),
+            "feature_order": [list(state["settings"].get("train_features") or []), list(state["ts_features"])]}
 
 
 # ----------------------------------------------------------------------------------------------------- CalTRACK hourly
